@@ -25,11 +25,12 @@ REPO = os.environ.get('VERIF_REPO', '/repo')   # experiments may point the check
 def work_root():
     """where the Coq project and the OCaml drivers are built.  For /repo itself: /verif (coq/, ocaml/).
     For an experiment against a modified copy (VERIF_REPO=<dir>): a private copy under /verif/build/exp_<hash>, so that
-    regenerated leaves, rebuilt proofs and drivers of an experiment never mix with the real tree's (or another experiment's)."""
+    regenerated leaves, rebuilt proofs and drivers of an experiment never mix with the real tree's (or another experiment's);
+    VERIF_EXP_TAG=<text> separates several experiments that run at once against the same copy."""
     if REPO == '/repo':
         return ROOT
     import hashlib
-    w = os.path.join(ROOT, 'build', 'exp_' + hashlib.sha256(os.path.abspath(REPO).encode()).hexdigest()[:10])
+    w = os.path.join(ROOT, 'build', 'exp_' + hashlib.sha256((os.path.abspath(REPO) + os.environ.get('VERIF_EXP_TAG', '')).encode()).hexdigest()[:10])
     if not os.environ.get('VERIF_WORK_SYNCED') == w:
         os.makedirs(w, exist_ok=True)
         for d in ('coq', 'ocaml'):
